@@ -550,8 +550,23 @@ func (s *UtxoStore) deleteUnminedInputs(tx mwdb.DBTransaction, rec *TxRecord) er
 	for _, input := range rec.MsgTx.TxIn {
 		prevOut := &input.PreviousOutPoint
 		k := canonicalOutPoint(&prevOut.Hash, prevOut.Index)
-		if len(existsRawUnminedInput(nsUnminedInputs, k)) > 0 {
+		// other unmined transactions may spend the same outpoint: remove only this one
+		spenders := fetchUnminedInputSpendTxHashes(nsUnminedInputs, k)
+		if len(spenders) == 0 {
+			continue
+		}
+		rest := make([]byte, 0, len(spenders)*32)
+		for i := range spenders {
+			if spenders[i] != rec.Hash {
+				rest = append(rest, spenders[i][:]...)
+			}
+		}
+		if len(rest) == 0 {
 			if err := deleteRawUnminedInput(nsUnminedInputs, k); err != nil {
+				return err
+			}
+		} else if len(rest) != len(spenders)*32 {
+			if err := nsUnminedInputs.Put(k, rest); err != nil {
 				return err
 			}
 		}
